@@ -172,3 +172,9 @@ REG.contract(M + "CommonEffectsMatrix.evaluate_new_data", params={"data": "any"}
 
 FUNCTIONS = [M + "CommonEffectsMatrix.evaluate_new_data", M + "CommonEffectsMatrix.evaluate", M + "GroupEffectsMatrix.evaluate", M + "CommonEffectsMatrix.__getitem__",
              M + "GroupEffectsMatrix.__getitem__", M + "GroupEffectsMatrix.evaluate_new_data"]
+
+
+ASSUMPTIONS = ['ASSUMED: CommonEffectsMatrix.__init__ / GroupEffectsMatrix.__init__ build {term.name: term} in order (dict comprehension not in the verified subset)',
+               'term objects are read-only references: .name, .data, .factor.name and eval_new_data(data) are functions of the object (and the frame)',
+               'np.column_stack of a list of arrays: widths add up and blocks are laid out in order (prefix sums); lemma psum_prefix is checked in Lean (lemmas/psum_prefix.lean)',
+               'the key order of the slices dict is not modelled (only the mapping name -> slice)']
